@@ -192,13 +192,20 @@ class Ctx(object):
         os.makedirs(os.path.join(VERIF, 'evidence'), exist_ok=True)
         with open(os.path.join(VERIF, 'evidence', '%s.json' % self.pid), 'w', encoding='utf-8') as fh:
             json.dump(ev, fh, ensure_ascii=False, indent=1, default=str)
-        print('== %s tier=%s: %d obligations, %d discharged, %d points, %d known finding(s), %d new violation(s), %.1fs'
+        out = []
+        out.append('== %s tier=%s: %d obligations, %d discharged, %d points, %d known finding(s), %d new violation(s), %.1fs'
               % (self.pid, self.tier, self.obligations, self.discharged, self.evaluations, n_known, n_new, wall))
         for name, r in sorted(self.rules.items()):
-            print('   rule %-28s instances=%-4d points=%-7d %s' % (name, r['instances'], r['points'], r['what'][:90]))
-        for l in lines:
-            print(l)
-        sys.stdout.flush()
+            out.append('   rule %-28s instances=%-4d points=%-7d %s' % (name, r['instances'], r['points'], r['what'][:90]))
+        out.extend(lines)
+        try:
+            sys.stdout.write('\n'.join(out) + '\n')
+            sys.stdout.flush()
+        except BrokenPipeError:
+            try:
+                sys.stdout = open(os.devnull, 'w')
+            except OSError:
+                pass
         return 1 if n_new else 0
 
 
